@@ -8,9 +8,9 @@
 import Drive.Monitor
 open Rsp
 
-def worldOps : List String := ["cfg", "client", "rq", "reply", "writer", "tick", "reset", "srvstate", "pop", "rmclient", "radput"]
+def worldOps : List String := ["rewrite", "cfg", "client", "rq", "reply", "writer", "tick", "reset", "srvstate", "pop", "rmclient", "radput"]
 
-partial def loop (h : IO.FS.Stream) (out : IO.FS.Stream) (st : Option Rsp.World.World) (mon : Drive.Mon := {}) : IO Unit := do
+partial def loop (h : IO.FS.Stream) (out : IO.FS.Stream) (st : Option Drive.DState) (mon : Drive.Mon := {}) : IO Unit := do
   let line ← h.getLine
   if line.isEmpty then return ()
   let toks := (line.trimAscii.toString.splitOn " ").filter (· ≠ "")
